@@ -527,7 +527,7 @@ def kinds_for(op):
 
 Cfg = namedtuple('Cfg', 'log tcr rec_enabled stats debug pw')
 Log = namedtuple('Log', 'name dest level act')
-PASSWORDS = ['Zq9_S3cr3t', 'päss wörd:x"\'', 'Pw\\back', 'Zq9_S3cr3t']
+PASSWORDS = ['Zq9_S3cr3t', 'päss wörd:x"\'>>?~~', 'Pw\\back??>z~', 'Zq9_S3cr3t']     # 1, 2: base64 form has '+' and '/'
 CREDS_LIST = 3      # index into PASSWORDS: same password, but creds passed as a list [user, password]
 BARE = Cfg(None, False, True, False, False, 0)
 
@@ -808,6 +808,13 @@ def check_password(env, desc):
                     R.violation('password-in-' + where, password=env.pw, found=f, **desc)
         if b64 in text:
             R.violation('password-base64-in-' + where, password=env.pw, found=b64, **desc)
+        else:
+            # a PART of the Authorization token is a leak as well: any 8 characters of it (6 bytes of "user:password")
+            # that reach into the password
+            first = ((len(USER.encode('utf-8')) + 1) * 4) // 3 - 7
+            part = next((b64[i:i + 8] for i in range(max(first, 0), len(b64) - 7) if b64[i:i + 8] in text), None)
+            if part:
+                R.violation('password-base64-partly-in-' + where, password=env.pw, token=b64, found=part, **desc)
 
 
 def desc_of(cfg, op, kind):
